@@ -303,8 +303,173 @@ class _PerFunction(ast.NodeTransformer):
         return _Accumulate(node).visit(node)
 
 
+# ----------------------------------------------------------------------------- N11: same-module prologue/epilogue decorators
+def _decorator_shape(dfn: ast.FunctionDef):
+    """(function parameter name, factory parameter names, wrapper def) of a decorator of one of the two plain shapes
+
+           def deco(fn):                         def deco(a, b):              # factory
+               [@functools.wraps(fn)]                def decorate(fn):
+               [async] def wrapper(...): ...             <as on the left>
+               [wrapper.attr = ...]*                 return decorate
+               return wrapper
+       or None."""
+    import copy
+
+    def plain(fdef):
+        a = fdef.args
+        if a.vararg or a.kwarg or a.kwonlyargs or a.posonlyargs or a.defaults or len(a.args) != 1:
+            return None
+        body = [st for st in fdef.body if not (isinstance(st, ast.Expr) and isinstance(st.value, ast.Constant))]
+        if len(body) < 2 or not isinstance(body[0], (ast.FunctionDef, ast.AsyncFunctionDef)) or not isinstance(body[-1], ast.Return) \
+                or not (isinstance(body[-1].value, ast.Name) and body[-1].value.id == body[0].name):
+            return None
+        w = body[0]
+        for st in body[1:-1]:
+            if not (isinstance(st, ast.Assign) and all(isinstance(t, ast.Attribute) and isinstance(t.value, ast.Name) and t.value.id == w.name for t in st.targets)):
+                return None
+        for d in w.decorator_list:
+            if not (isinstance(d, ast.Call) and ast.unparse(d.func).split(".")[-1] == "wraps"):
+                return None
+        if any(isinstance(x, (ast.Nonlocal, ast.Global)) for x in ast.walk(w)):
+            return None
+        return a.args[0].arg, w
+
+    direct = plain(dfn)
+    if direct is not None:
+        return direct[0], [], direct[1]
+    a = dfn.args
+    if a.vararg or a.kwarg or a.kwonlyargs or a.posonlyargs or a.defaults:
+        return None
+    body = [st for st in dfn.body if not (isinstance(st, ast.Expr) and isinstance(st.value, ast.Constant))]
+    if len(body) == 2 and isinstance(body[0], ast.FunctionDef) and isinstance(body[1], ast.Return) and isinstance(body[1].value, ast.Name) and body[1].value.id == body[0].name:
+        inner = plain(body[0])
+        if inner is not None:
+            return inner[0], [x.arg for x in a.args], inner[1]
+    return None
+
+
+def _apply_decorators(tree: ast.Module) -> ast.Module:
+    """N11: a function decorated with ONE decorator of the shapes above, defined at module level in the same module, is replaced by
+
+           def _undecorated_<name>(<original parameters>): <original body>          # private: inlined by the analyses like any helper
+           def <name>(<wrapper parameters>): <wrapper body, `fn(...)` -> the private function>
+
+       `fn(self, a, b)` with the wrapper's own first parameter first becomes `self._undecorated_<name>(a, b)` for a method. A wrapper
+       with the signature (*args, **kwargs) that only calls `fn(*args, **kwargs)` keeps the decorated function's own parameter
+       list (its names are what rules look at). Factory arguments must be constants and are substituted. Exact: the decorator
+       returns `wrapper` closed over `fn`, which is what the rewritten pair of functions is."""
+    import copy
+
+    decos = {st.name: st for st in tree.body if isinstance(st, ast.FunctionDef)}
+    shapes = {}
+    for nm, dfn in decos.items():
+        sh = _decorator_shape(dfn)
+        if sh is not None:
+            shapes[nm] = sh
+    if not shapes:
+        return tree
+
+    def rewrite(fdef, in_class: bool):
+        if len(fdef.decorator_list) != 1:
+            return None
+        d = fdef.decorator_list[0]
+        fargs = []
+        if isinstance(d, ast.Call) and isinstance(d.func, ast.Name) and not d.keywords and all(isinstance(x, ast.Constant) for x in d.args):
+            dname, fargs = d.func.id, list(d.args)
+        elif isinstance(d, ast.Name):
+            dname = d.id
+        else:
+            return None
+        sh = shapes.get(dname)
+        if sh is None or fdef.name == dname:
+            return None
+        fn_param, factory_params, w = sh
+        if len(factory_params) != len(fargs) or (factory_params and not isinstance(d, ast.Call)) or (not factory_params and isinstance(d, ast.Call)):
+            return None
+        if isinstance(w, ast.AsyncFunctionDef) != isinstance(fdef, ast.AsyncFunctionDef) and not isinstance(w, ast.AsyncFunctionDef):
+            pass
+        priv = "_undecorated_" + fdef.name.strip("_")
+        w2 = copy.deepcopy(w)
+        subst = dict(zip(factory_params, fargs))
+        wa = w2.args
+        generic = bool(wa.vararg and wa.kwarg and not wa.args and not wa.kwonlyargs and not wa.posonlyargs)
+        calls = [c for c in ast.walk(w2) if isinstance(c, ast.Call) and isinstance(c.func, ast.Name) and c.func.id == fn_param]
+        others = [n for n in ast.walk(w2) if isinstance(n, ast.Name) and n.id == fn_param and not any(n is c.func for c in calls)]
+        others = [n for n in others if not any(isinstance(dd, ast.Call) and any(n is x for x in ast.walk(dd)) for dd in w2.decorator_list)]
+        if not calls or others:
+            return None
+        oa = fdef.args
+        if generic:
+            if oa.vararg or oa.kwarg or oa.kwonlyargs or oa.posonlyargs:
+                return None
+            for c in calls:
+                if not (len(c.args) == 1 and isinstance(c.args[0], ast.Starred) and isinstance(c.args[0].value, ast.Name) and c.args[0].value.id == wa.vararg.arg
+                        and len(c.keywords) == 1 and c.keywords[0].arg is None and isinstance(c.keywords[0].value, ast.Name) and c.keywords[0].value.id == wa.kwarg.arg):
+                    return None
+            if any(isinstance(n, ast.Name) and n.id in (wa.vararg.arg, wa.kwarg.arg) and not any(n is c.args[0].value or n is c.keywords[0].value for c in calls) for n in ast.walk(w2)):
+                return None
+            w2.args = copy.deepcopy(oa)
+            names = [x.arg for x in oa.args]
+            for c in calls:
+                c.args = [ast.Name(id=nm, ctx=ast.Load()) for nm in names]
+                c.keywords = []
+            first = names[0] if names else None
+        else:
+            first = wa.args[0].arg if wa.args else None
+        for c in calls:
+            if in_class and first is not None and c.args and isinstance(c.args[0], ast.Name) and c.args[0].id == first and first in ("self", "cls"):
+                c.func = ast.Attribute(value=ast.Name(id=first, ctx=ast.Load()), attr=priv, ctx=ast.Load())
+                c.args = c.args[1:]
+            elif not in_class:
+                c.func = ast.Name(id=priv, ctx=ast.Load())
+            else:
+                return None
+
+        class Sub(ast.NodeTransformer):
+            def visit_Name(self_, n):
+                if n.id in subst and isinstance(n.ctx, ast.Load):
+                    return ast.copy_location(copy.deepcopy(subst[n.id]), n)
+                return n
+        if subst:
+            if any(isinstance(n, ast.Name) and n.id in subst and isinstance(n.ctx, ast.Store) for n in ast.walk(w2)):
+                return None
+            w2 = Sub().visit(w2)
+        w2.name = fdef.name
+        w2.decorator_list = []
+        w2.returns = fdef.returns
+        if not isinstance(w2.body[0], ast.Expr) or not isinstance(getattr(w2.body[0], "value", None), ast.Constant):
+            doc = ast.get_docstring(fdef, clean=False)
+            if doc is not None:
+                w2.body.insert(0, ast.Expr(value=ast.Constant(value=doc)))
+        orig = copy.deepcopy(fdef)
+        orig.name = priv
+        orig.decorator_list = []
+        ast.copy_location(w2, fdef)
+        for n in ast.walk(w2):
+            if not hasattr(n, "lineno") and isinstance(n, (ast.expr, ast.stmt)):
+                ast.copy_location(n, fdef)
+        return [orig, w2]
+
+    def walk_body(body, in_class):
+        out = []
+        for st in body:
+            if isinstance(st, (ast.FunctionDef, ast.AsyncFunctionDef)):
+                r = rewrite(st, in_class)
+                if r is not None:
+                    out.extend(r)
+                    continue
+            elif isinstance(st, ast.ClassDef):
+                st.body = walk_body(st.body, True)
+            out.append(st)
+        return out
+
+    tree.body = walk_body(tree.body, False)
+    return tree
+
+
 def normalise(tree: ast.Module) -> ast.Module:
     tree = _Normaliser().visit(tree)
     tree = _PerFunction().visit(tree)
+    tree = _apply_decorators(tree)
     ast.fix_missing_locations(tree)
     return tree
